@@ -102,6 +102,22 @@ CLAIMED["C10"] = dict(
         "exact integer equivalent on the reachable domain (argued in DESIGN). Trusted: Coq kernel, translator, harness, C compiler. No axioms.",
    technique="Rocq proof: decision invisibility via refinement, memory-safety invariant of a modelled decoder for all inputs, refutation witnesses; differential correspondence",
    design="6/C10")
+CLAIMED["C17"] = dict(
+   text="Theorems (coq/props/C17.v): (1) C17_range_sound -- for ALL (start, end, days) incl. negatives / out-of-range and ALL bucket states an "
+        "accepted range starts and ends at non-empty files, lies strictly below the head file, and the first data-holding file above its end has a "
+        "first record older than the age limit (no_gc_days when days<0); (2) pretend mode is the identity on the model state; (3) "
+        "C17_touches_only_partial -- for ALL states, ranges and merge flags a pass leaves the head index and every data chunk outside "
+        "[dst0, max(end, dst_final)], dst0 <= begin, bit-for-bit unchanged; (4) C17_one_pass_per_bucket -- over ALL schedules of the request "
+        "protocol (check / reserve / start / finish as separate atomic steps, any number of requests and buckets) at most one pass runs per bucket, "
+        "with the reservation flag translated from store/hstore.go proved on, and the protocol without it refuted by a 6-step schedule (finding F12, "
+        "repaired by a fix: commit). Correspondence: GC histories through the real HStore.GC (range resolution incl. pretend, file inventory before/"
+        "after compared with the model's directory), python oracle for range soundness / files touched / pretend, and the forced schedule 'two "
+        "requests parked between check and registration' with a concurrent-pass detector.",
+   note="PARTIAL: (3) allows the run dst0..begin-1 of emptied earlier files where the text says 'the single earlier file'; 'dst_final <= end' is "
+        "checked by correspondence/oracle only. The request protocol model is abstract (tied to the code by the translated flag and the forced "
+        "schedule, not by trace replay). Trusted: Coq kernel, translator, harness incl. verifPoint parking, python oracle. No axioms.",
+   technique="Rocq proof of range soundness, touched-file set and mutual exclusion over all schedules of a protocol model; refutation witness; differential correspondence + forced schedules",
+   design="6/C17")
 NOT_YET = {}
 props = [json.loads(l) for l in open(os.path.join(V, "properties.jsonl"))]
 checks = []
